@@ -9,6 +9,11 @@ Open Scope string_scope. Open Scope list_scope.
 
 Record field_ir := mk_fi { fi_path : tpath; fi_compact : bool; fi_boxed : bool }.
 
+(** the Box wrapper is printed only for a boxed field that is NOT compact (F21 repair,
+    type_ir.rs [CompositeFieldIR::to_tokens]: a compact field is its inner type plus
+    [#[codec(compact)]], and [Box<T>] is not [HasCompact]) *)
+Definition fi_emit_boxed (f : field_ir) : bool := fi_boxed f && negb (fi_compact f).
+
 Inductive ckind :=
 | CNoFields
 | CNamed (fs : list (string * field_ir))
